@@ -45,6 +45,8 @@ SYM = {"N": 2, "M": 3, "K": 1}
 # names a user may give a symbolic dimension: ordinary ones, names that LOOK like the `unk__<n>` parameters ONNX
 # shape inference invents (spox strips those from *inferred* types only), near misses, digits, non-ASCII, spaces,
 # and "" (an empty dim_param is ONNX's way of writing "unknown")
+# preset names of `arguments_dict` arguments: disjoint from every pool of user-chosen keys
+PRESET_NAMES = ["preset_w", "preset_bias", "preset_x0", "preset_\u00e9", "preset_data"]
 DIM_NAMES = ["N", "M", "K", "N", "unk__0", "unk__batch", "UNK__1", "unk_1", "unk__", "", "0", "12", "\u6279", "\u00fc_len", "dim with space"]
 
 
@@ -348,7 +350,15 @@ def gen_program(rng: random.Random, n_args=None, size=None, max_depth=3, domains
             ty = {"e": rt["e"], "d": list(rt["d"])}
         else:
             ty = gen_type(rng)
-        top.append(g.new({"k": "arg", "ty": ty}))
+        node = {"k": "arg", "ty": ty}
+        if rng.random() < 0.12:
+            # an argument made by the documented-internal `spox._graph.arguments_dict`: it carries a preset
+            # name of its own (build must name it by its key and give the preset name back), and — if its
+            # shape is concrete — possibly a default value (an initializer of the same name in the model)
+            node["preset"] = PRESET_NAMES[len([n for n in top if "preset" in n]) % len(PRESET_NAMES)]
+            if "e" in ty and ty["e"] not in SIZE_LIFT and all(isinstance(d, int) for d in ty["d"]) and rng.random() < 0.5:
+                node["default"] = True
+        top.append(g.new(node))
         if rng.random() < 0.15:
             top.append(g.new({"k": "const", "v": float(rng.randrange(-2, 3))}))
     args = [n["id"] for n in top if n["k"] == "arg"]
@@ -388,6 +398,8 @@ def gen_program(rng: random.Random, n_args=None, size=None, max_depth=3, domains
     prog = {"nodes": top, "n": g.n}
     if multi is not None:
         prog["multi"] = multi
+    if rng.random() < 0.35:
+        prog["opset"] = rng.choice([18, 19, 20, 21])   # realised with the constructors of a newer ai.onnx module
     return prog
 
 
@@ -690,8 +702,16 @@ def realize(prog, op=None):
     """Create the program with the real spox constructors. Returns {id: Var-or-junk}."""
     import spox
 
+    ver = int(prog.get("opset", 17))
     if op is None:
-        import spox.opset.ai.onnx.v17 as op
+        import importlib
+
+        try:
+            op = importlib.import_module(f"spox.opset.ai.onnx.v{ver}")
+        except Exception:  # noqa: BLE001 - no such module on this tree
+            import spox.opset.ai.onnx.v17 as op
+
+            ver = 17
     env = {}
     funcs = {}
 
@@ -721,7 +741,17 @@ def realize(prog, op=None):
     def run(nodes):
         for nd in nodes:
             k, i = nd["k"], nd["id"]
-            if k == "arg":
+            if k == "arg" and "preset" in nd:
+                try:
+                    from spox._graph import arguments_dict
+
+                    info = tensor(nd["ty"])
+                    if nd.get("default") and "e" in nd["ty"] and all(isinstance(d, int) for d in nd["ty"]["d"]):
+                        info = np.ones(tuple(nd["ty"]["d"]), dtype=ELEMS[nd["ty"]["e"]][0])
+                    env[i] = arguments_dict(**{nd["preset"]: info})[nd["preset"]]
+                except ImportError:  # the internal helper moved: a plain argument (the correspondence will say so)
+                    env[i] = spox.argument(tensor(nd["ty"]))
+            elif k == "arg":
                 env[i] = spox.argument(tensor(nd["ty"]))
             elif k == "init":
                 env[i] = op.constant(value=np.ones(2, dtype=ELEMS[nd["ty"]["e"]][0]))  # a Var that is no argument
@@ -740,7 +770,13 @@ def realize(prog, op=None):
             elif k == "neg":
                 env[i] = op.neg(env[nd["a"]])
             elif k == "rmax":
-                env[i] = op.reduce_max(op.unsqueeze(env[nd["a"]], op.const(np.array([0], dtype=np.int64))), axes=[0], keepdims=0)
+                u_ = op.unsqueeze(env[nd["a"]], op.const(np.array([0], dtype=np.int64)))
+                if ver >= 18:   # `axes` is an input from opset 18 on
+                    # (with `axes` an input the inferred rank can get lost inside bodies: pin it, every value is a scalar)
+                    env[i] = op.reshape(op.reduce_max(u_, op.const(np.array([0], dtype=np.int64)), keepdims=0),
+                                        op.const(np.array([], dtype=np.int64)))
+                else:
+                    env[i] = op.reduce_max(u_, axes=[0], keepdims=0)
             elif k == "fun":
                 (env[i],) = function(nd["f"])(env[nd["a"]], env[nd["b"]])
             elif k == "cust":
@@ -789,6 +825,13 @@ def realize(prog, op=None):
                 env[i] = op.scan([env[nd["init"]], xs], body=sbody, num_scan_inputs=1)[0]
             else:
                 raise ValueError(k)
+            if ver >= 18 and k in ("loop", "scan", "if", "rmax", "fun"):
+                # the newer modules' control-flow constructors report carried values without a rank (plain ONNX
+                # inference; v17 has its own); every value of a program is a scalar, and `build` refuses unranked
+                # outputs, so the rank is pinned by a Reshape to ()
+                t_ = getattr(env[i], "type", None)
+                if isinstance(t_, spox.Tensor) and t_.shape is None:
+                    env[i] = op.reshape(env[i], op.const(np.array([], dtype=np.int64)))
 
     with warnings.catch_warnings():
         warnings.simplefilter("ignore")
@@ -990,6 +1033,56 @@ def _gen_request(rng: random.Random, prog, *, allow_bad=True, allow_dup=False):
     return {"inputs": inputs, "outputs": outputs, "drop": rng.random() < 0.5, "kind": kind}
 
 
+def preset_store(prog):
+    """[[id, preset name]] of the program's `arguments_dict` arguments (the model driver's initial name store)."""
+    return [[n["id"], n["preset"]] for n in prog["nodes"] if n["k"] == "arg" and "preset" in n]
+
+
+def preset_clash(prog, req):
+    """Is this the known name-based quirk: drop_unused_inputs=True, some output depends on an UNLISTED
+    argument whose preset name equals a key of `inputs`?"""
+    if not req["drop"]:
+        return False
+    idx = index(prog)
+    keys = {n for n, _ in req["inputs"]}
+    listed = {i for _, i in req["inputs"]}
+    try:
+        used = free_args(prog, [i for _, i in req["outputs"] if idx[i]["k"] != "junk"])
+    except Exception:  # noqa: BLE001
+        return False
+    return any(a not in listed and idx[a].get("preset") in keys for a in used)
+
+
+def preset_output_clash(prog, req):
+    """Does an unlisted preset-named argument carry a requested output name or a key (whether used or not)?"""
+    idx = index(prog)
+    names = {n for n, _ in req["inputs"] + req["outputs"]}
+    listed = {i for _, i in req["inputs"]}
+    return any(n["k"] == "arg" and n.get("preset") in names and n["id"] not in listed for n in idx.values())
+
+
+def gen_preset_clash_request(rng: random.Random, prog):
+    """The directed witness of the quirk: an output that needs a preset-named argument `z`, `z` not
+    listed, its preset name given as the key of an argument the output does not need. None if the
+    program has no such pair."""
+    top = top_level(prog)
+    args = [n["id"] for n in top if n["k"] == "arg"]
+    vals = [n["id"] for n in top if n["k"] not in ("arg", "init", "junk")]
+    rng.shuffle(vals)
+    for v in vals[:8]:
+        used = free_args(prog, [v])
+        zs = [a for a in used if "preset" in index(prog)[a]]
+        us = [a for a in args if a not in used]
+        if zs and us:
+            z, u = rng.choice(zs), rng.choice(us)
+            rest = [a for a in args if a not in (z, u)]
+            rng.shuffle(rest)
+            inputs = [[index(prog)[z]["preset"], u]] + [[f"x{j}", a] for j, a in enumerate(rest)]
+            rng.shuffle(inputs)
+            return {"inputs": inputs, "outputs": [["y", v]], "drop": True, "kind": "preset-name-equals-key"}
+    return None
+
+
 def gen_odd_request(rng: random.Random, prog):
     """A request with an unusual dictionary: an empty input or output name, a key that is not a
     string, odd characters, a non-Var value or a repeated Var *after* at least one regular input."""
@@ -1148,4 +1241,8 @@ def run_ort(model, feeds):
     so.graph_optimization_level = ort.GraphOptimizationLevel.ORT_DISABLE_ALL
     sess = ort.InferenceSession(model.SerializeToString(), so, providers=["CPUExecutionProvider"])
     want = {i.name for i in sess.get_inputs()}
+    try:  # inputs that have a default value (an initializer of the same name) are listed separately
+        want |= {i.name for i in sess.get_overridable_initializers()}
+    except Exception:  # noqa: BLE001
+        pass
     return sess.run(None, {k: v for k, v in feeds.items() if k in want})
